@@ -45,7 +45,11 @@ pub fn round_trip(_seed: u64) -> usize {
         other => { println!("REPRODUCED grpc wire metadata [k=1, e=\"\", k=2] arrives as {:?}", other.map(|b| b.meta).map_err(|e| e.to_string())); found += 1; }
     }
     // malformed replies must be rejected, never altered
-    for (host, port) in [("127.0.0.1", 65536u32), ("127.0.0.1", 70000), ("not an ip", 25565)] {
+    // (hosts that are no IP address text although a resolver or a lenient parser would turn them into one belong here: short and
+    // numeric inet_aton forms, names from /etc/hosts, brackets, zone ids, a port inside the host, padding, leading zeros)
+    for (host, port) in [("127.0.0.1", 65536u32), ("127.0.0.1", 70000), ("not an ip", 25565), ("127.1", 25565), ("10.1", 25565), ("2130706433", 25565),
+        ("0x7f.0.0.1", 25565), ("localhost", 25565), ("ip6-localhost", 25565), ("[::1]", 25565), ("::1%lo", 25565), ("fe80::1%1", 25565), ("127.0.0.1:80", 25565),
+        (" 127.0.0.1", 25565), ("127.0.0.1 ", 25565), ("0127.0.0.1", 25565), ("127.0.0.01", 25565), ("1.2.3", 25565), ("1.2.3.4.5", 25565), ("", 25565), ("::ffff:1.2.3", 25565)] {
         let wire = proto::Target { identifier: "x".into(), address: Some(proto::Address { hostname: host.into(), port }), meta: vec![] };
         if let Ok(t) = Target::try_from(wire) {
             println!("REPRODUCED grpc malformed address {host}:{port} accepted as {}", t.address);
